@@ -125,6 +125,7 @@ type Ret struct {
 	Kind   string `json:"kind"`             // int | str | bool | enum | obj | union | leaf
 	Target string `json:"target,omitempty"` // object or union name
 	List   bool   `json:"list,omitempty"`
+	List2  bool   `json:"list2,omitempty"` // with List: a list of lists ([[T]])
 	Ptr    bool   `json:"ptr,omitempty"`      // nullable value (for a list: nullable elements)
 	NN     bool   `json:"nn,omitempty"`       // schemabuilder.NonNullable
 	ElemNN bool   `json:"elem_nn,omitempty"`  // schemabuilder.ListEntryNonNullable
@@ -249,20 +250,32 @@ func (w *World) Value(typ string, id int64, field string, args string, ret Ret, 
 	var v interface{}
 	canNull := ret.Ptr && !ret.NoNull && !ret.NN
 	if ret.List {
-		n := int(h % 4)
-		if (h>>20)%5 == 0 {
-			n = 0
-		}
-		l := make([]interface{}, 0, n)
-		for i := 0; i < n; i++ {
-			hi := hash(h, "elem", fmt.Sprint(i))
-			if canNull && !ret.ElemNN && hi%5 == 0 {
-				l = append(l, nil)
-			} else {
-				l = append(l, w.one(ret, colors, hi>>3))
+		mkList := func(h uint64) []interface{} {
+			n := int(h % 4)
+			if (h>>20)%5 == 0 {
+				n = 0
 			}
+			l := make([]interface{}, 0, n)
+			for i := 0; i < n; i++ {
+				hi := hash(h, "elem", fmt.Sprint(i))
+				if canNull && !ret.ElemNN && hi%5 == 0 {
+					l = append(l, nil)
+				} else {
+					l = append(l, w.one(ret, colors, hi>>3))
+				}
+			}
+			return l
 		}
-		v = l
+		if ret.List2 {
+			n := int((h >> 7) % 4)
+			outer := make([]interface{}, 0, n)
+			for i := 0; i < n; i++ {
+				outer = append(outer, mkList(hash(h, "row", fmt.Sprint(i))))
+			}
+			v = outer
+		} else {
+			v = mkList(h)
+		}
 	} else if canNull && (h>>16)%4 == 0 {
 		v = nil
 	} else {
@@ -335,7 +348,10 @@ func elemType(ret Ret) reflect.Type {
 func retType(ret Ret) reflect.Type {
 	t := elemType(ret)
 	if ret.List {
-		return reflect.SliceOf(t)
+		t = reflect.SliceOf(t)
+		if ret.List2 {
+			t = reflect.SliceOf(t)
+		}
 	}
 	return t
 }
